@@ -7,6 +7,7 @@ modelled search answers at all (`run … = some …`, i.e. the code does not rai
 -/
 import PartituraModel.Props.C17
 import PartituraModel.Proofs.C17Vosa
+import PartituraModel.Proofs.C17VosaTotal
 
 namespace C17
 open Model Gen
@@ -82,6 +83,25 @@ theorem chord_same_voice_modelled (offs : List Rat) (notes : List Voices.VNote) 
 /-- the empty array is rejected (the code raises) -/
 theorem voices_modelled_empty (offs : List Rat) (mono : Bool) : Vosa.estimateVoicesWith offs mono [] = none := by
   simp [Vosa.estimateVoicesWith]
+
+/-! ### the stages of the search that are proved never to raise -/
+
+/-- `VoSA.__init__`: every grace note (duration 0) finds its main note whenever some note has a
+    duration — the `np.argmin` over the candidates is never over an empty array (defect C17-2 repaired) -/
+theorem vosa_grace_total (notes : List Vosa.N) : (Vosa.graceLinks notes).isSome :=
+  C17T.graceLinks_isSome notes
+
+/-- `make_contigs`: on a non-empty score the loop that cuts the timepoints into contigs never reads
+    the unbound `last_tp` (a timepoint with sounding notes that is not a boundary always follows a contig) -/
+theorem vosa_contig_lists_total (notes : List Vosa.N) (hne : notes ≠ []) :
+    (Vosa.contigNoteLists notes).isSome :=
+  C17T.contigNoteLists_isSome notes hne
+
+/-- `Contig(notes)` never raises on a non-empty note list: no onset has more sounding notes than
+    there are streams (no IndexError) and every stream receives a note at the contig's onset, because
+    the first timepoint with the maximal number of sounding notes is an onset (no empty NoteStream) -/
+theorem vosa_contig_total (l : List Vosa.N) (hne : l ≠ []) : (Vosa.mkContig l).isSome :=
+  C17T.mkContig_isSome l hne
 
 /-! ### est_best_connections -/
 
